@@ -106,8 +106,13 @@ def build_bar(bd):
         b = Bar(bd["key"], (bd["meter"][0], bd["meter"][1]))
     except Exception as e:  # noqa
         raise BuildError("cannot build bar %r %r: %r" % (bd["key"], bd["meter"], e))
+    built = []
     for e in bd["entries"]:
-        nc = build_nc(e["notes"], e.get("bpm"), bool(e.get("sub")))
+        if e.get("reuse") is not None and e["reuse"] < len(built) and built[e["reuse"]] is not None:
+            nc = built[e["reuse"]]  # the very same container object as that earlier entry
+        else:
+            nc = build_nc(e["notes"], e.get("bpm"), bool(e.get("sub")))
+        built.append(nc)
         try:
             ok = b.place_notes(nc, RV.number(e["v"]))
         except Exception as ex:  # noqa
